@@ -1,9 +1,106 @@
 import Driver.Json
-open Lean Drv
+import Model.Assign
+open Lean Drv Ens Ens.Assign
 
 namespace Drv.C10
 
-def handle (op : String) (_req : Json) : Except String Json :=
-  throw s!"bad-op C10.{op}"
+def errStr : Err → String
+  | .dataInvalid => "data-invalid"
+  | .indexError => "index-error"
+  | .attributeError => "attribute-error"
+  | .valueError => "value-error"
+  | .improperlyConfigured => "improperly-configured"
+
+def getERat (j : Json) : Except String ERat :=
+  match j with
+  | .null => pure none
+  | v => do let q ← getRat v; pure (some q)
+
+def eratJson : ERat → Json
+  | none => Json.null
+  | some q => ratJson q
+
+/-- a rectangular table `n × k` of rationals as an index function; shape is validated here so
+the out-of-range default is never read by the model inside `n × k`. -/
+def getTable (req : Json) (n k : Nat) : Except String (Nat → Nat → Rat) := do
+  let rows ← getList (getList getRat) (← field req "table")
+  if rows.length ≠ n then throw "bad table: number of rows"
+  if rows.any (fun r => r.length ≠ k) then throw "bad table: row length"
+  let arr := rows.toArray.map (·.toArray)
+  pure fun f c => (arr.getD f #[]).getD c 0
+
+def partsJson {α} (f : α → Json) : Parts α → Json
+  | .square rows => Json.mkObj [("type", Json.str "ndarray"), ("rows", listJson (listJson f) rows)]
+  | .ragged data lens rows =>
+    Json.mkObj [("type", Json.str "RaggedArray"), ("data", listJson f data),
+                ("lengths", listJson natJson lens), ("rows", listJson (listJson f) rows)]
+
+def pairJson (p : Nat × Int) : Json := Json.arr #[natJson p.1, intJson p.2]
+
+def labDistJson (p : Nat × ERat) : Json := Json.arr #[natJson p.1, eratJson p.2]
+
+def handle (op : String) (req : Json) : Except String Json := do
+  match op with
+  | "assign" =>
+    let n ← getNat (← field req "n")
+    let k ← getNat (← field req "k")
+    let x ← getBool (← field req "has_xyz")
+    let D ← getTable req n k
+    let s := assignNearest D n k x
+    pure (okJson (Json.mkObj [("labels", listJson natJson (tabulate n s.lab)),
+                              ("dists", listJson eratJson (tabulate n s.dist))]))
+  | "predict" =>
+    let n ← getNat (← field req "n")
+    let k ← getNat (← field req "k")
+    let x ← getBool (← field req "has_xyz")
+    let D ← getTable req n k
+    match predict D n k x with
+    | .error e => pure (errJson (errStr e))
+    | .ok (labs, ds, cs) =>
+      pure (okJson (Json.mkObj [("labels", listJson natJson labs), ("dists", listJson eratJson ds),
+                                ("centers", listJson natJson cs)]))
+  | "find_centers" =>
+    let a ← getList getInt (← field req "assignments")
+    let d ← getList getERat (← field req "distances")
+    let aa := a.toArray
+    let da := d.toArray
+    match findClusterCenters a.length (fun f => aa.getD f 0) d.length (fun f => da.getD f none) with
+    | .error e => pure (errJson (errStr e))
+    | .ok cs => pure (okJson (listJson natJson cs))
+  | "partition_list" =>
+    let l ← getList getInt (← field req "l")
+    let lens ← getList getNat (← field req "lens")
+    match partitionList l lens with
+    | .error e => pure (errJson (errStr e))
+    | .ok ps => pure (okJson (listJson (listJson intJson) ps))
+  | "partition_indices" =>
+    let inds ← getList getInt (← field req "inds")
+    let lens ← getList getNat (← field req "lens")
+    pure (okJson (listJson pairJson (partitionIndices inds lens)))
+  | "partition" =>
+    let a ← getList getInt (← field req "assignments")
+    let d ← getList getERat (← field req "distances")
+    let ci ← getList getInt (← field req "center_indices")
+    let lens ← getList getNat (← field req "lens")
+    match partition a d ci lens with
+    | .error e => pure (errJson (errStr e))
+    | .ok r =>
+      pure (okJson (Json.mkObj [("assignments", partsJson intJson r.assignments),
+                                ("distances", partsJson eratJson r.distances),
+                                ("center_indices", listJson pairJson r.centerIndices)]))
+  | "compute_batches" =>
+    let lens ← getList getNat (← field req "lens")
+    let b ← getNat (← field req "batch_size")
+    pure (okJson (listJson (listJson natJson) (computeBatches lens b)))
+  | "batch_reassign" =>
+    let lens ← getList getNat (← field req "lens")
+    let k ← getNat (← field req "k")
+    let x ← getBool (← field req "has_xyz")
+    let b ← getNat (← field req "batch_size")
+    let D ← getTable req lens.sum k
+    match batchReassign D lens k x b with
+    | .error e => pure (errJson (errStr e))
+    | .ok ps => pure (okJson (listJson (listJson labDistJson) ps))
+  | _ => throw s!"bad-op C10.{op}"
 
 end Drv.C10
